@@ -1,11 +1,13 @@
 /-
   C15, part 2 — EDIF reference resolution, as the streaming reader performs it
   (edif/parser.py: parse_instance / parse_viewRef / parse_cellRef / parse_libraryRef / parse_portRef /
-  parse_instanceRef / parse_design AS REPAIRED by docs/fixes/io_edif_design_undeclared.diff).
+  parse_instanceRef / parse_design as repaired).
 
   Input: the declaration/reference EVENT STREAM of an EDIF file, in file order — what the recursive
   descent sees once everything that is not a declaration or a reference is dropped.  Identifiers are
-  compared case-insensitively (EdifNamespace keys are lower-cased).  What is visible at a reference:
+  compared case-insensitively (EdifNamespace keys are lower-cased).  The reader keeps OBJECTS in scope;
+  here an object is the POSITION of its declaring event and its attributes are read from the stream.
+  What is visible at a reference:
     * a cell        — after its `(cell …)` is closed (`library.add_definition` follows `parse_cell`);
                       the enclosing cell itself is the target of a `viewRef` without `cellRef`;
     * a library     — the current one by name, any other once closed (`add_library` follows
@@ -13,8 +15,8 @@
     * an instance   — once declared in the same `contents` (`add_child` follows `parse_instance`);
     * a port        — every port of the owning cell (`interface` precedes `contents`);
     * `design`      — closed libraries only.
-  Output: for every reference event, the POSITION in the stream of the declaration it resolves to.
-  No Mathlib.
+  Lookups return the FIRST match in declaration order.
+  Output: for every reference event, the position of the declaration it resolves to.  No Mathlib.
 -/
 namespace Spydr.IO.Resolve
 
@@ -36,28 +38,13 @@ inductive Ev
 /-- case-insensitive identifier equality -/
 def eqI (a b : String) : Bool := a.toLower == b.toLower
 
-structure CellSig where
-  pos : Nat
-  ident : String
-  view : String
-  ports : List PortDecl
-  deriving Repr, Inhabited
-
-structure InstSig where
-  pos : Nat
-  ident : String
-  target : CellSig
-  deriving Repr, Inhabited
-
-structure LibSig where
-  ident : String
-  cells : List CellSig
-  deriving Repr, Inhabited
-
 structure Scope where
-  done : List LibSig
-  cur : Option LibSig
-  cell : Option (CellSig × List InstSig)
+  /-- closed libraries: position of the `lib` event, positions of its (closed) cells -/
+  done : List (Nat × List Nat)
+  /-- the library being read and its closed cells -/
+  cur : Option (Nat × List Nat)
+  /-- the cell being read and its instances so far: (position of the `inst` event, position of the cell it refers to) -/
+  cell : Option (Nat × List (Nat × Nat))
   deriving Repr, Inhabited
 
 inductive RRef
@@ -70,116 +57,127 @@ inductive Err
   | danglingLibrary | danglingCell | danglingView | danglingInstance | danglingPort | memberRange | malformed
   deriving DecidableEq, Repr
 
+/-! attributes of a declaration, read from the stream -/
+def isLibNamed (all : List Ev) (name : String) (p : Nat) : Bool :=
+  match all[p]? with | some (.lib i) => eqI i name | _ => false
+def isCellNamed (all : List Ev) (name : String) (d : Nat) : Bool :=
+  match all[d]? with | some (.cell i _ _) => eqI i name | _ => false
+def isInstNamed (all : List Ev) (name : String) (a : Nat) : Bool :=
+  match all[a]? with | some (.inst i _ _ _) => eqI i name | _ => false
+def viewIs (all : List Ev) (view : String) (d : Nat) : Bool :=
+  match all[d]? with | some (.cell _ v _) => eqI v view | _ => false
+def portsOf (all : List Ev) (d : Nat) : Option (List PortDecl) :=
+  match all[d]? with | some (.cell _ _ ps) => some ps | _ => none
+
 def findPort (ps : List PortDecl) (name : String) : Nat → Option (Nat × PortDecl)
   := fun k => match ps with
   | [] => none
   | p :: r => if eqI p.ident name then some (k, p) else findPort r name (k + 1)
 
-def findCell (cells : List CellSig) (name : String) : Option CellSig := cells.find? (fun c => eqI c.ident name)
-def findLib (libs : List LibSig) (name : String) : Option LibSig := libs.find? (fun l => eqI l.ident name)
-def findInst (is : List InstSig) (name : String) : Option InstSig := is.find? (fun i => eqI i.ident name)
-
 /-- the cells a `cellRef` is looked up in -/
-def targetCells (sc : Scope) (l : LibSig) : Option String → Except Err (List CellSig)
-  | none => .ok l.cells
+def targetCells (all : List Ev) (sc : Scope) (cur : Nat × List Nat) : Option String → Except Err (List Nat)
+  | none => .ok cur.2
   | some ln =>
-    if eqI l.ident ln then .ok l.cells
-    else match findLib sc.done ln with
-      | some L => .ok L.cells
+    if isLibNamed all ln cur.1 then .ok cur.2
+    else match sc.done.find? (fun L => isLibNamed all ln L.1) with
+      | some L => .ok L.2
       | none => .error .danglingLibrary
 
-def pickCell (cells : List CellSig) (cn view : String) : Except Err CellSig :=
-  match findCell cells cn with
+def pickCell (all : List Ev) (cells : List Nat) (cn view : String) : Except Err Nat :=
+  match cells.find? (isCellNamed all cn) with
   | none => .error .danglingCell
-  | some t => if eqI t.view view then .ok t else .error .danglingView
+  | some d => if viewIs all view d then .ok d else .error .danglingView
 
 /-- the cell an instance refers to -/
-def resolveTarget (sc : Scope) (l : LibSig) (c : CellSig) (view : String)
-    (cellRef : Option String) (libRef : Option String) : Except Err CellSig :=
+def resolveTarget (all : List Ev) (sc : Scope) (cur : Nat × List Nat) (c : Nat) (view : String)
+    (cellRef : Option String) (libRef : Option String) : Except Err Nat :=
   match cellRef with
-  | none => if eqI c.view view then .ok c else .error .danglingView
+  | none => if viewIs all view c then .ok c else .error .danglingView
   | some cn =>
-    match targetCells sc l libRef with
+    match targetCells all sc cur libRef with
     | .error e => .error e
-    | .ok cells => pickCell cells cn view
+    | .ok cells => pickCell all cells cn view
 
 /-- the cell whose ports a `portRef` names, and the instance it goes through -/
-def ownerOf (c : CellSig) (insts : List InstSig) : Option String → Except Err (CellSig × Option Nat)
+def ownerOf (all : List Ev) (c : Nat) (insts : List (Nat × Nat)) : Option String → Except Err (Nat × Option Nat)
   | none => .ok (c, none)
   | some iname =>
-    match findInst insts iname with
+    match insts.find? (fun ia => isInstNamed all iname ia.1) with
     | none => .error .danglingInstance
-    | some i => .ok (i.target, some i.pos)
+    | some ia => .ok (ia.2, some ia.1)
 
-def pickPort (owner : CellSig) (ia : Option Nat) (p : String) (m : Option Nat) : Except Err RRef :=
-  match findPort owner.ports p 0 with
-  | none => .error .danglingPort
-  | some (k, pd) =>
-    if m.getD 0 < pd.width then .ok (.pin owner.pos k (m.getD 0) ia) else .error .memberRange
+def pickPort (all : List Ev) (owner : Nat) (ia : Option Nat) (p : String) (m : Option Nat) : Except Err RRef :=
+  match portsOf all owner with
+  | none => .error .malformed
+  | some ps =>
+    match findPort ps p 0 with
+    | none => .error .danglingPort
+    | some (k, pd) =>
+      if m.getD 0 < pd.width then .ok (.pin owner k (m.getD 0) ia) else .error .memberRange
 
-def pickTop (done : List LibSig) (cn ln : String) : Except Err RRef :=
-  match findLib done ln with
+def pickTop (all : List Ev) (done : List (Nat × List Nat)) (cn ln : String) : Except Err RRef :=
+  match done.find? (fun L => isLibNamed all ln L.1) with
   | none => .error .danglingLibrary
   | some L =>
-    match findCell L.cells cn with
+    match L.2.find? (isCellNamed all cn) with
     | none => .error .danglingCell
-    | some t => .ok (.top t.pos)
+    | some d => .ok (.top d)
 
-def stepEv (pos : Nat) (sc : Scope) : Ev → Except Err (Scope × Option RRef)
-  | .lib id =>
+def stepEv (all : List Ev) (pos : Nat) (sc : Scope) : Ev → Except Err (Scope × Option RRef)
+  | .lib _ =>
     match sc.cur, sc.cell with
-    | none, none => .ok ({ sc with cur := some ⟨id, []⟩ }, none)
+    | none, none => .ok ({ sc with cur := some (pos, []) }, none)
     | _, _ => .error .malformed
   | .endLib =>
     match sc.cur, sc.cell with
     | some l, none => .ok ({ sc with done := sc.done ++ [l], cur := none }, none)
     | _, _ => .error .malformed
-  | .cell id v ps =>
+  | .cell _ _ _ =>
     match sc.cur, sc.cell with
-    | some _, none => .ok ({ sc with cell := some (⟨pos, id, v, ps⟩, []) }, none)
+    | some _, none => .ok ({ sc with cell := some (pos, []) }, none)
     | _, _ => .error .malformed
   | .endCell =>
     match sc.cur, sc.cell with
-    | some l, some (c, _) => .ok ({ sc with cur := some { l with cells := l.cells ++ [c] }, cell := none }, none)
+    | some l, some ci => .ok ({ sc with cur := some (l.1, l.2 ++ [ci.1]), cell := none }, none)
     | _, _ => .error .malformed
-  | .inst id v co lo =>
+  | .inst _ v co lo =>
     match sc.cur, sc.cell with
-    | some l, some (c, insts) =>
-      match resolveTarget sc l c v co lo with
+    | some l, some ci =>
+      match resolveTarget all sc l ci.1 v co lo with
       | .error e => .error e
-      | .ok t => .ok ({ sc with cell := some (c, insts ++ [⟨pos, id, t⟩]) }, some (.cell t.pos))
+      | .ok t => .ok ({ sc with cell := some (ci.1, ci.2 ++ [(pos, t)]) }, some (.cell t))
     | _, _ => .error .malformed
   | .portRef p m io =>
-    match sc.cell with
-    | some (c, insts) =>
-      match ownerOf c insts io with
+    match sc.cur, sc.cell with
+    | some _, some ci =>
+      match ownerOf all ci.1 ci.2 io with
       | .error e => .error e
-      | .ok (owner, ia) =>
-        match pickPort owner ia p m with
+      | .ok oa =>
+        match pickPort all oa.1 oa.2 p m with
         | .error e => .error e
         | .ok r => .ok (sc, some r)
-    | none => .error .malformed
+    | _, _ => .error .malformed
   | .design cn ln =>
     match sc.cur, sc.cell with
     | none, none =>
-      match pickTop sc.done cn ln with
+      match pickTop all sc.done cn ln with
       | .error e => .error e
       | .ok r => .ok (sc, some r)
     | _, _ => .error .malformed
 
-def go : Nat → Scope → List Ev → Except Err (List (Nat × RRef))
+def go (all : List Ev) : Nat → Scope → List Ev → Except Err (List (Nat × RRef))
   | _, _, [] => .ok []
   | pos, sc, e :: rest =>
-    match stepEv pos sc e with
+    match stepEv all pos sc e with
     | .error err => .error err
-    | .ok (sc', r) =>
-      match go (pos + 1) sc' rest with
+    | .ok sr =>
+      match go all (pos + 1) sr.1 rest with
       | .error err => .error err
-      | .ok rs => .ok (match r with | some x => (pos, x) :: rs | none => rs)
+      | .ok rs => .ok (match sr.2 with | some x => (pos, x) :: rs | none => rs)
 
 def Scope.empty : Scope := ⟨[], none, none⟩
 
 /-- `resolveRefs` -/
-def resolve (evs : List Ev) : Except Err (List (Nat × RRef)) := go 0 Scope.empty evs
+def resolve (evs : List Ev) : Except Err (List (Nat × RRef)) := go evs 0 Scope.empty evs
 
 end Spydr.IO.Resolve
